@@ -13,7 +13,7 @@ pub static PROP: Prop = Prop {
     id: "C03",
     title: "Symmetric monoidal category laws hold up to genuine isomorphism",
     check,
-    max_tape: (450, 800),
+    max_tape: (520, 860),
     cases: (40_000, 800_000),
     both_profiles: false,
     rule: "one law group per case: (a) composable triples for associativity and unit laws, (b) two composable pairs for interchange, (c) two arbitrary diagrams plus three object lists for naturality, involutivity and both hexagons; both sides computed through the public API and compared by the isomorphism decision procedure; non-trivial = every diagram involved has >= 1 hyperedge and >= 1 boundary leg (for (c): |A|,|B| >= 1 and A != B); distinct = hash of the generated diagrams and lists",
@@ -22,6 +22,7 @@ pub static PROP: Prop = Prop {
         "a negative control (sigma_{A,A} vs id, and a point-mutated copy) must be reported non-isomorphic in the same run",
     ],
     fixed: None,
+    scale: None,
 };
 
 fn m(ctx: &Ctx, f: &sv::SOH, what: &str) -> Result<Diagram, Violation> {
@@ -49,7 +50,22 @@ fn check(t: &mut Tape, ctx: &mut Ctx) -> CheckResult {
 fn assoc_unit(t: &mut Tape, ctx: &mut Ctx, al: gen::Alpha) -> CheckResult {
     let sz = ctx.sizes;
     ctx.class("group:assoc+unit");
-    let ds = gen::composable(t, &sz, al, 3, ctx);
+    let mut ds = gen::composable(t, &sz, al, 3, ctx);
+    if t.weighted(&[11, 1]) == 1 {
+        // f ; g glued along a large, heavily non-injective boundary in a balanced merge order
+        ctx.class("big-boundary");
+        let k = t.range(3, 6);
+        let (nf, ng, ft, gs) = gen::tournament_boundary(t, k);
+        let lab = ds[0].nodes.first().copied().unwrap_or(0);
+        let base_f = ds[0].nodes.len();
+        ds[0].nodes.extend(std::iter::repeat(lab).take(nf));
+        ds[0].t = ft.iter().map(|&v| v + base_f).collect();
+        let mut g = Diagram { nodes: vec![lab; ng], edges: vec![], s: gs, t: vec![] };
+        // g's outputs: h's inputs
+        let ht = ds[2].source_type();
+        gen::with_target_type(t, &mut g, &ht);
+        ds[1] = g;
+    }
     ctx.set_dump(format!("f = {}\ng = {}\nh = {}", ds[0].pretty(), ds[1].pretty(), ds[2].pretty()));
     let (f, g, h) = (sv::to_strict(&ds[0]), sv::to_strict(&ds[1]), sv::to_strict(&ds[2]));
     let fg = comp(ctx, &f, &g, "f;g")?;
